@@ -645,9 +645,15 @@ pub proof fn lemma_gen_refl(o: &Compiler, f: &Compiler)
     }
 }
 
-// the code generator not yet verified on its body: behind the common contract (assumption, listed)
-#[verifier::external_body]
-pub fn compile_match_expression_shim(c: &mut Compiler, e: MatchExpr) -> (r: Result<(), CompileError>) requires cwf(old(c)) ensures r is Ok ==> gen(old(c), final(c)) { unimplemented!() }
+// assumption (listed): the parser gives every match expression at least one arm (it appends the default arm) and every arm at least one pattern
+#[verifier::external_body] pub fn first_pattern(arms: &Vec<MatchArm>) -> (r: &MatchPattern) { arms.first().unwrap().patterns.first().unwrap() }
+#[verifier::external_body] pub fn pattern_matches_type(a: &MatchPattern, b: &MatchPattern) -> (r: bool) { unimplemented!() }
+#[verifier::external_body] pub fn block_clone(b: &BlockStatement) -> (r: BlockStatement) ensures r == *b { unimplemented!() }
+#[verifier::external_body] pub fn string_clone(s: &String) -> (r: String) ensures r@ == s@ { s.clone() }
+// recorded jump placeholders: starts of 3-byte instructions emitted after the state `o`
+pub open spec fn jumps_ok(c: &Compiler, o: &Compiler, v: Seq<usize>, from: int) -> bool {
+    forall|j: int| from <= j < v.len() ==> is_start(c, #[trigger] v[j] as int) && ilen(op_at(code(c), v[j] as int)) == 3 && v[j] >= code(o).len()
+}
 #[verifier::external_body] pub fn filter_pattern_clone(p: &FilterPattern) -> (r: FilterPattern) ensures r == *p { unimplemented!() }
 #[verifier::external_body] pub fn rc_compiled_fn(instructions: Instructions, num_locals: usize, num_params: usize, line: usize) -> (r: Rc<CompiledFunction>) { unimplemented!() }
 pub broadcast proof fn lemma_gen_trans(a: &Compiler, b: &Compiler, c: &Compiler)
